@@ -42,6 +42,7 @@
    st                 snapshots of both sides
    gate13 <role> <hs>                      256-bit map of verif_tls13CheckHsState over all message types
    gate12 <role> <hs>                      reaction of parseSSLHandshake's gate to each of the 256 types, for each of the 64 flag subsets
+   gate12d <role> <hs>                     the same on a DTLS session (flags x haveCookie x lastMsn / message_seq pairs)
 */
 #include "sess.h"
 #include <setjmp.h>
@@ -89,7 +90,7 @@ int32_t __wrap_sslUpdateHSHash(ssl_t *ssl, const unsigned char *in, psSize_t len
     if (g_probe_t < 0 && tamper_hash(ssl, in, len, __real_sslUpdateHSHash, &trc)) return trc;
     if (ssl == g_cur_ssl) {
         if (g_probe_t < 0) { g_gate_calls++; g_gate_hs = ssl->hsState; }
-        else if (len == 4 && in[0] == (unsigned char) g_probe_t && in[1] == 0 && in[2] == 0 && in[3] == 0) {
+        else if ((len == 4 || len == 12) && in[0] == (unsigned char) g_probe_t && in[1] == 0 && in[2] == 0 && in[3] == 0) {
             /* gate sweep: the probe passed the gate and is about to be hashed; the handlers are not meant to run on the
                fabricated state, so the call is abandoned here (do_gate12 restores the session) */
             g_gate_calls++; g_gate_hs = ssl->hsState; longjmp(g_probe_jmp, 1);
@@ -618,6 +619,62 @@ static void do_gate12(int role, int hs) {
     s->sid = sid_saved;
 }
 
+#ifdef USE_DTLS
+/* the same gate on a DTLS session: hsState x type x 16 flag subsets (1 PSK, 2 DHE, 4 ticket state RECVD_EXT else INIT, 8 CLIENT_AUTH)
+   x haveCookie x (lastMsn, message_seq) pairs.  Codes per type: refused with unexpected_message (counted), n no_renegotiation
+   warning, p<hs> passed (hashed in state hs), f dropped silently (future message_seq), x dropped with DTLS_RETRANSMIT, o other;
+   runs of equal codes are printed as a-b:code */
+static void do_gate12d(int role, int hs) {
+    static const int pairs[10][2] = { {-1,0}, {-1,1}, {0,0}, {0,1}, {0,2}, {2,0}, {2,1}, {2,2}, {2,3}, {2,4} };
+    scfg_t c; xcfg_t x; memset(&c, 0, sizeof c); memset(&x, 0, sizeof x); c.cca = 1; c.seed = 7; c.ncver = c.nsver = 1; c.cver[0] = c.sver[0] = 3; c.dtls = 1;
+    if (hs_new(&c, &x) != 0) { printf("g12d:newfail"); return; }
+    peer_t *p = role ? &g_s : &g_c; ssl_t *s = p->ssl;
+    { int sq = g_quiet; g_quiet = 1; flush_out(&g_c); g_quiet = sq; }
+    sslSessionId_t *sid_saved = s->sid; static sslSessionId_t fakesid; static char code[256][24];
+    for (int k = 0; k < 16; k++) for (int hc = 0; hc < 2; hc++) for (int pi = 0; pi < 10; pi++) {
+        int counts[4] = { 0, 0, 0, 0 };
+        for (int t = 0; t < 256; t++) {
+            ssl_t keep; memcpy(&keep, s, sizeof keep);
+            s->hsState = (uint8_t) hs;
+            s->flags &= ~(SSL_FLAGS_READ_SECURE | SSL_FLAGS_WRITE_SECURE | SSL_FLAGS_PSK_CIPHER | SSL_FLAGS_DHE_KEY_EXCH | SSL_FLAGS_ERROR | SSL_FLAGS_CLOSED | SSL_FLAGS_CLIENT_AUTH);
+            if (k & 1) s->flags |= SSL_FLAGS_PSK_CIPHER;
+            if (k & 2) s->flags |= SSL_FLAGS_DHE_KEY_EXCH;
+            memset(&fakesid, 0, sizeof fakesid); s->sid = &fakesid; fakesid.sessionTicketState = (k & 4) ? SESS_TICKET_STATE_RECVD_EXT : SESS_TICKET_STATE_INIT;
+            if (k & 8) s->flags |= SSL_FLAGS_CLIENT_AUTH;
+            s->haveCookie = hc; s->lastMsn = pairs[pi][0]; s->err = SSL_ALERT_NONE;
+            unsigned char rec[25] = { 22, 0xfe, 0xfd, 0, 0, 0, 0, 0, 0, 0, 9, 0, 12, (unsigned char) t, 0, 0, 0, 0, (unsigned char) pairs[pi][1], 0, 0, 0, 0, 0, 0 };
+            unsigned char *rb; int32 room = matrixSslGetReadbuf(s, &rb);
+            int32 rc = -999; unsigned char *pt; uint32 ptl;
+            g_cur_ssl = s; g_gate_calls = 0; g_gate_hs = -1; g_probe_t = t;
+            if (room >= 25 && setjmp(g_probe_jmp) == 0) { memcpy(rb, rec, 25); rc = matrixSslReceivedData(s, 25, &pt, &ptl); }
+            g_cur_ssl = NULL; g_probe_t = -1;
+            int err = (int) s->err, hsa = (int) s->hsState;
+            int warn100 = s->outlen >= 15 && s->outbuf[0] == 21 && s->outbuf[13] == 1 && s->outbuf[14] == 100;
+            int untouched = err == SSL_ALERT_NONE && hsa == hs && s->outlen == 0 && !(s->flags & SSL_FLAGS_ERROR) && s->lastMsn == pairs[pi][0];
+            code[t][0] = 0;
+            if (g_gate_calls == 0 && err == SSL_ALERT_UNEXPECTED_MESSAGE && (hsa == hs || hs == SSL_HS_HELLO_REQUEST)) counts[0]++;
+            else if (g_gate_calls == 0 && warn100 && err == SSL_ALERT_NONE && hsa == hs && !(s->flags & SSL_FLAGS_ERROR)) { counts[1]++; strcpy(code[t], "n"); }
+            else if (g_gate_calls > 0) { counts[2]++; snprintf(code[t], sizeof code[t], "p%d", g_gate_hs); }
+            else if (untouched && rc == MATRIXSSL_REQUEST_SEND) { counts[3]++; strcpy(code[t], "x"); }
+            else if (untouched) { counts[3]++; strcpy(code[t], "f"); }
+            else { counts[3]++; snprintf(code[t], sizeof code[t], "o%d:%d:%d", err, hsa, (int) rc); }
+            void *ib = s->inbuf, *ob = s->outbuf; int32 isz = s->insize, osz = s->outsize;
+            memcpy(s, &keep, sizeof keep);
+            s->inbuf = ib; s->outbuf = ob; s->insize = isz; s->outsize = osz; s->inlen = 0; s->outlen = 0;
+        }
+        printf("g12d:");
+        for (int t = 0; t < 256; ) {
+            if (!code[t][0]) { t++; continue; }
+            int e = t; while (e + 1 < 256 && !strcmp(code[e+1], code[t])) e++;
+            if (e > t) printf("%d-%d:%s ", t, e, code[t]); else printf("%d:%s ", t, code[t]);
+            t = e + 1;
+        }
+        printf("u=%d n=%d p=%d o=%d ; ", counts[0], counts[1], counts[2], counts[3]);
+    }
+    s->sid = sid_saved;
+}
+#endif
+
 /* ---------------------------------------------------------------- commands */
 static void run_cmd(char **a, int n) {
     if (n == 0) return;
@@ -660,6 +717,9 @@ static void run_cmd(char **a, int n) {
     }
     else if (!strcmp(a[0], "st")) { printf("st:c="); print_xsnap(&g_c); printf(" s="); print_xsnap(&g_s); }
     else if (!strcmp(a[0], "gate13") && n >= 3) do_gate13(atoi(a[1]), atoi(a[2]));
+#ifdef USE_DTLS
+    else if (!strcmp(a[0], "gate12d") && n >= 3) do_gate12d(atoi(a[1]), atoi(a[2]));
+#endif
     else if (!strcmp(a[0], "gate12") && n >= 3) { g_g12_only = n >= 4 ? atoi(a[3]) : -1; do_gate12(atoi(a[1]), atoi(a[2])); }
     else printf("?%s", a[0]);
 }
